@@ -19,9 +19,10 @@ cargo test --offline 2>&1 | grep -E "^test result|FAILED|panicked" > $out/suite_
 suite_ok=$(grep -c "test result: ok" $out/suite_with_change.txt); suite_bad=$(grep -vc "test result: ok" $out/suite_with_change.txt)
 echo "   ok-lines=$suite_ok other-lines=$suite_bad"
 echo "== demo with change"; cargo test --offline ${DEMO_FLAGS:-} --test $dn 2>&1 | grep -E "^test result" > $out/demo_with_change.txt; cat $out/demo_with_change.txt
-git stash push -q -- src Cargo.toml
+# (no git stash here: refs/stash is shared by every worktree of the repository, and concurrent agents use it)
+git checkout -q -- src Cargo.toml
 echo "== demo without change"; cargo test --offline ${DEMO_FLAGS:-} --test $dn 2>&1 | grep -E "^test result" > $out/demo_without_change.txt; cat $out/demo_without_change.txt
-git stash pop -q
+git apply $out/patch.diff
 cd /verif
 if ! git -C /repo apply --check $out/patch.diff 2>/dev/null; then echo "PATCH DOES NOT APPLY to /repo"; exit 3; fi
 git -C /repo apply $out/patch.diff
